@@ -89,7 +89,7 @@ def o111(ctx):
             ctx.count(1, {"write": f".{ext}", "transpose": tr, "library": ev.name})
             if ev.name.split(".")[0] != FAMILY[ext]:
                 ctx.finding(WR, ev.node, f"a .{ext} file must be written with {FAMILY[ext]}", ev.node, mw)
-            nm_ = ev.kwargs.get("name") or ev.arg(0)
+            nm_ = ev.kwargs.get("name") or ev.kwargs.get("path") or ev.arg(0)  # mrcfile.write(name=...), emfile.write(path=...), or first positional
             ctx.count(1)
             if nm_ is None or not (is_pyconst(nm_) and pyval(nm_) == f"out/volume_b.{ext}"):
                 ctx.finding(WR, ev.node, "the library writer must be given the caller's file name itself: its overwrite check (refuse to replace an "
@@ -110,6 +110,22 @@ def o111(ctx):
             if not narrow:
                 ctx.finding(WR, ev.node, "float64 data must be narrowed to float32 before the library call", ev.node, mw,
                             data=tm.show(t)[:200])
+            for n_ in narrow:
+                # the test looks at the array that is about to be written (after the requested data_type has been applied), at nothing else: a map
+                # written with data_type=int16 is an int16 file whatever the type of the array the caller held
+                # the arrays whose type is compared with float64 (the operands of those comparisons themselves, not what is nested inside them)
+                tested = []
+                for c_ in tm.walk(n_.args[0]):
+                    if c_.op in ("eq", "ne") and any(a_.op == "const" and a_.args[0] == "ref:numpy.float64" for a_ in c_.args):
+                        for a_ in c_.args:
+                            if a_.op == "call" and str(a_.args[0]) in ("dtype", ".dtype") and len(a_.args) >= 2:
+                                tested.append(a_.args[1])
+                ctx.count(1, {"narrowing decided on the type of": sorted({tm.show(x)[:60] for x in tested})} if ext == "mrc" and tr else None)
+                if tested and any(x != n_.args[2] for x in tested):
+                    other_ = [x for x in tested if x != n_.args[2]][0]
+                    ctx.finding(WR, ev.node, "the float64 -> float32 narrowing is (also) decided on the type of another array than the one written "
+                                f"({tm.show(other_)[:60]}): a float64 map written with an integer data_type is converted a second time and stored as float32",
+                                ev.node, mw)
             ctx.count(1)
             if not tm.contains(t, lambda x: x.op == "call" and x.args[0] == ".astype" and tm.has_sym(x, "data_type")):
                 ctx.finding(WR, ev.node, "a requested data_type must be applied to the data before writing", ev.node, mw)
